@@ -25,12 +25,38 @@ inductive Move where
   | burnTicker (v : Int)
   /-- bookkeeping without value. -/
   | admin (p : Prim)
+  /-- bancor conversion: `sellAmt` of `sell` leaves circulation (its reserve pays `bip`), `buyAmt` of `buy` is minted against `bip`.
+      For the base coin on either side the amount moved *is* `bip`. -/
+  | bancor (a : Addr) (sell : Coin) (sellAmt : Int) (buy : Coin) (buyAmt : Int) (bip : Int)
+  /-- delegation: `value` leaves the balance, a waitlist entry of the same (candidate, coin) is folded in, the sum becomes a pending update. -/
+  | delegate (a : Addr) (cand : Nat) (coin : Coin) (value : Int) (wl : Option WaitEntry)
+  /-- unbond / move: `value` is taken from the waitlist entry first (the rest of it stays on the waitlist), then from the stake, and frozen. -/
+  | unbond (a : Addr) (stakeCand : Nat) (coin : Coin) (value : Int) (wl : Option WaitEntry) (f : Frozen)
+  /-- lock: balance into a frozen fund without a candidate. -/
+  | lock (a : Addr) (f : Frozen)
+  /-- new candidate with its first stake as a pending update. -/
+  | declare (a : Addr) (cd : Candidate) (coin : Coin) (stake : Int)
+  /-- new pool: both volumes enter the pool, the LP token is created, 1000 of it go to address 0 and the rest to the creator. -/
+  | poolCreate (a : Addr) (p : Pool) (lp : CoinInfo)
+  /-- add liquidity: `(a0, a1)` enter the pool stored as `(c0, c1)`, `liq` LP tokens are minted to the provider. -/
+  | poolMint (a : Addr) (c0 c1 : Coin) (a0 a1 : Int) (lp : Coin) (liq : Int)
+  /-- remove liquidity. -/
+  | poolBurn (a : Addr) (c0 c1 : Coin) (a0 a1 : Int) (lp : Coin) (liq : Int)
+  /-- limit order: the volume offered leaves the balance into the order's escrow. -/
+  | orderAdd (a : Addr) (o : Order)
+  /-- cancel: the escrow returns to the owner. -/
+  | orderRemove (a : Addr) (o : Order)
   deriving Repr
 
 /-- Primitives without any value effect that `Move.admin` may carry. -/
 def Prim.isAdmin : Prim → Bool
   | .setNonce _ _ | .setCoinOwner _ _ | .bumpVersion _ _ | .note _ | .useCheck _ => true
+  | .setLockStake _ _ | .setMultisig _ _ | .setCandStatus _ _ | .setToDrop _ | .editCandidate _ _ _ _
+  | .setCandPubKey _ _ _ | .setCandCommission _ _ _ | .addHalt _ _ | .addCVote _ _ _ | .addUVote _ _ _ | .setNextOrder _ => true
   | _ => false
+
+def Order.escrowCoin (o : Order) : Coin := if o.isSale then o.c1 else o.c0
+def Order.escrowValue (o : Order) : Int := if o.isSale then o.v1 else o.v0
 
 def Move.prims : Move → List Prim
   | .transfer a b c v => [.addBal a c (-v), .addBal b c v]
@@ -49,6 +75,37 @@ def Move.prims : Move → List Prim
       if ci.id = 0 then [] else [.addBal owner 0 (-ci.reserve), .createCoin ci, .addBal owner ci.id ci.volume]
   | .burnTicker v => [.addRewards (-v), .addBal 0 0 v]
   | .admin p => if p.isAdmin then [p] else []
+  | .bancor a sell sellAmt buy buyAmt bip =>
+      (if sell = 0 then [.addBal a 0 (-bip)] else [.addBal a sell (-sellAmt), .addVolume sell (-sellAmt), .addReserve sell (-bip)])
+      ++ (if buy = 0 then [.addBal a 0 bip] else [.addBal a buy buyAmt, .addVolume buy buyAmt, .addReserve buy bip])
+  | .delegate a cand coin value wl =>
+      match wl with
+      | some w => [.addBal a coin (-value), .delWait { w with owner := a, coin := coin },
+                   .pushUpdate cand { owner := a, coin := coin, value := value + w.value, bip := 0 }]
+      | none => [.addBal a coin (-value), .pushUpdate cand { owner := a, coin := coin, value := value, bip := 0 }]
+  | .unbond a stakeCand coin value wl f =>
+      let fz : Frozen := { f with addr := a, coin := coin, value := value }
+      match wl with
+      | some w =>
+        let w' : WaitEntry := { w with owner := a, coin := coin }
+        let diff := value - w.value
+        if diff < 0 then [.delWait w', .addWait { w' with value := -diff }, .addFrozen fz]
+        else if 0 < diff then [.delWait w', .addStake stakeCand a coin (-diff), .addFrozen fz]
+        else [.delWait w', .addFrozen fz]
+      | none => [.addStake stakeCand a coin (-value), .addFrozen fz]
+  | .lock a f => [.addBal a f.coin (-f.value), .addFrozen { f with addr := a }]
+  | .declare a cd coin stake =>
+      [.addBal a coin (-stake), .addCandidate cd, .pushUpdate cd.id { owner := a, coin := coin, value := stake, bip := 0 }]
+  | .poolCreate a p lp =>
+      if lp.id = 0 ∨ lp.reserve ≠ 0 then []
+      else [.createPool p, .addBal a p.c0 (-p.r0), .addBal a p.c1 (-p.r1), .createCoin lp,
+            .addBal a lp.id (lp.volume - minLiquidity), .addBal 0 lp.id minLiquidity]
+  | .poolMint a c0 c1 a0 a1 lp liq =>
+      if lp = 0 then [] else [.addPool c0 c1 a0 a1, .addBal a c0 (-a0), .addBal a c1 (-a1), .addVolume lp liq, .addBal a lp liq]
+  | .poolBurn a c0 c1 a0 a1 lp liq =>
+      if lp = 0 then [] else [.addPool c0 c1 (-a0) (-a1), .addBal a c0 a0, .addBal a c1 a1, .addVolume lp (-liq), .addBal a lp (-liq)]
+  | .orderAdd a o => [.addBal a o.escrowCoin (-o.escrowValue), .addOrder o]
+  | .orderRemove a o => [.delOrder o, .addBal a o.escrowCoin o.escrowValue]
 where burnAddressM : Addr := 4613284110362529566999548832207186500636242630   -- Mx00cedde786b34d733d1dc96559253081572df2c6
 
 def planOf (ms : List Move) : List Prim := ms.flatMap Move.prims
